@@ -298,6 +298,12 @@ func walk(cfg runCfg, e *emitter, rng *rand.Rand, o walkOpts) {
 			}
 			if o.lookups {
 				emitLookups(e, is, rf, dead, rng, cfg.tier == "thorough" || rf.n() <= 40)
+				if hI%2 == 1 && rng.Intn(3) == 0 {
+					// "restore from serialization": go on with restored copies and look everything up again
+					is.restoreAll(e)
+					e.count("restored_states")
+					emitLookups(e, is, rf, dead, rng, cfg.tier == "thorough" || rf.n() <= 40)
+				}
 			}
 		}
 		e.distinct(sig)
